@@ -180,7 +180,7 @@ Lemma parse_str_unfold f c r acc :
     else if c <? 32 then None
     else if c =? 92 then match r with [] => None | e :: r2 => esc_step f e r2 acc end
     else parse_str f r (c :: acc).
-Proof. reflexivity. Qed.
+Proof. rewrite rev_alt. reflexivity. Qed.
 
 Lemma read_hex4_inv s cp r : read_hex4 s = Some (cp, r) ->
   exists a b c d, s = a :: b :: c :: d :: r /\ read_hex4 [a; b; c; d] = Some (cp, []).
